@@ -130,6 +130,16 @@ class Frame:
     def __contains__(self, name):
         return name in self.cols
 
+    def __pyvc_len__(self):
+        """len(df): the number of (selected) rows"""
+        from .values import SNum
+
+        if self.sel is None:
+            return M._len_value(self.n)
+        g = self.sel.getter()
+        c = M.count_true(self.n, lambda i: g(i)[1], "rows")
+        return SNum(c, False, "pyi") if alg.is_sym(c) else c
+
     @property
     def loc(self):
         return _Loc(self)
